@@ -268,6 +268,71 @@ impl Gen for BodyScalar {
     }
 }
 
+/// A model value as the body of a derived type: the body's attributes follow the tag attribute, its items are the
+/// items of the record. Generated are the values for which that is unambiguous: a scalar, or a record that has an
+/// attribute, or two or more items, or one slot (a record with no attribute and one plain item is written exactly as
+/// that item on its own, and the empty record as an absent body).
+fn body_scalar(rng: &mut Rng) -> Value {
+    match rng.below(6) {
+        0 => Value::Int32Value(Gen::gen(rng)),
+        1 => Value::text(<String as Gen>::gen(rng)),
+        2 => Value::BooleanValue(Gen::gen(rng)),
+        3 => Value::Int64Value(1 << 40),
+        4 => Value::Float64Value(2.5),
+        _ => Value::UInt64Value(u64::MAX),
+    }
+}
+fn body_item(rng: &mut Rng) -> Item {
+    if rng.below(2) == 0 {
+        Item::ValueItem(body_scalar(rng))
+    } else {
+        Item::Slot(Value::text(*rng.pick(&["a", "b", "key"])), body_scalar(rng))
+    }
+}
+fn body_value(rng: &mut Rng) -> Value {
+    match rng.below(6) {
+        0 => body_scalar(rng),
+        // attributes and exactly one plain item
+        1 => Value::Record(vec![Attr::of(*rng.pick(&["attr", "attr2"]))], vec![Item::ValueItem(body_scalar(rng))]),
+        2 => Value::Record(vec![Attr::of(("attr", body_scalar(rng)))], vec![body_item(rng)]),
+        // one slot
+        3 => Value::Record(vec![], vec![Item::Slot(Value::text("k"), body_scalar(rng))]),
+        // two or more items, with or without attributes
+        4 => Value::Record(vec![], vec![body_item(rng), body_item(rng)]),
+        _ => {
+            let attrs = (0..rng.below(3)).map(|i| Attr::of(*["x", "y", "z"].get(i as usize).unwrap())).collect();
+            let items = (0..rng.range(2, 4)).map(|_| body_item(rng)).collect();
+            Value::Record(attrs, items)
+        }
+    }
+}
+
+#[derive(Form, Debug, PartialEq, Clone)]
+struct BodyValue {
+    #[form(header)]
+    n: i32,
+    #[form(body)]
+    body: Value,
+}
+impl Gen for BodyValue {
+    fn gen(rng: &mut Rng) -> Self {
+        BodyValue { n: Gen::gen(rng), body: body_value(rng) }
+    }
+}
+
+#[derive(Form, Debug, PartialEq, Clone)]
+struct AttrBodyValue {
+    #[form(attr)]
+    a: i32,
+    #[form(body)]
+    c: Value,
+}
+impl Gen for AttrBodyValue {
+    fn gen(rng: &mut Rng) -> Self {
+        AttrBodyValue { a: Gen::gen(rng), c: body_value(rng) }
+    }
+}
+
 #[derive(Form, Debug, PartialEq, Clone)]
 struct Skipper {
     a: i32,
@@ -649,6 +714,8 @@ fn main() {
     battery::<WithBody>(&mut ctx, "WithBody", n);
     battery::<BodyVec>(&mut ctx, "BodyVec", n);
     battery::<BodyScalar>(&mut ctx, "BodyScalar", n);
+    battery::<BodyValue>(&mut ctx, "BodyValue", 2 * n);
+    battery::<AttrBodyValue>(&mut ctx, "AttrBodyValue", 2 * n);
     battery::<Skipper>(&mut ctx, "Skipper", n);
     battery::<Tuple>(&mut ctx, "Tuple", n);
     battery::<TupleNamed>(&mut ctx, "TupleNamed", n);
